@@ -241,6 +241,7 @@ type outcome struct {
 	Views    []string       // disagreements between views of the recovered log
 	Idem     string         // what a second recovery changed ("" = nothing)
 	Append   string         // failure of append + Check ("" = fine)
+	Durable  string         // C06: a message published and Sync'd after the recovery is lost by the next recovery
 	RecJ     []vos.Event    // journal of the recovering Open (depth 2)
 	RecIDs   map[string]int // file identities the journal refers to
 	computed bool
@@ -386,6 +387,47 @@ func evaluateX(im image, cfg drv.Cfg, withJournal, light bool) *outcome {
 		return o
 	}
 	if light {
+		// C06, one step further: what is acknowledged after the recovery must survive the next
+		// recovery as well (no further loss: everything below was fsynced by Sync and Close)
+		if walkErr == "" {
+			p := safely(func() {
+				ao := cfg.Options()
+				ao.Rollover = 1 << 20
+				lg, err := klevdb.Open(dir, ao)
+				if err != nil {
+					o.Durable = "Open after recovery failed: " + err.Error()
+					return
+				}
+				msg := klevdb.Message{Time: time.UnixMicro(drv.BaseT + 500).UTC(), Key: []byte("a"), Value: []byte("acked")}
+				if _, err := lg.Publish([]klevdb.Message{msg}); err != nil {
+					o.Durable = "Publish after recovery failed: " + err.Error()
+				}
+				w2, err := lg.Sync()
+				if err != nil {
+					o.Durable = "Sync after recovery failed: " + err.Error()
+				}
+				if err := lg.Close(); err != nil && o.Durable == "" {
+					o.Durable = "Close after recovery failed: " + err.Error()
+				}
+				if o.Durable != "" {
+					return
+				}
+				lg, err = klevdb.Open(dir, ro)
+				if err != nil {
+					o.Durable = "second Open(Recover) failed: " + err.Error()
+					return
+				}
+				defer lg.Close()
+				got, gerr := lg.Get(n)
+				n2, _ := lg.NextOffset()
+				if gerr != nil || string(got.Value) != "acked" || n2 < w2 {
+					o.Durable = fmt.Sprintf("a message published and Sync'd (offset %d, Sync returned %d) after the recovery is gone after the next recovery: Get = (%q, %v), NextOffset %d", n, w2, got.Value, gerr, n2)
+				}
+			})
+			if p != "" {
+				o.Durable = "panic after recovery: " + p
+			}
+		}
 		return o
 	}
 	// recovering again changes nothing
@@ -674,6 +716,9 @@ func judgeC06(o *outcome, call string, before, after *model.Log, w int64) []stri
 	}
 	if o.Next < w {
 		out = append(out, fmt.Sprintf("NextOffset %d is below the acknowledged durable offset %d", o.Next, w))
+	}
+	if o.Durable != "" {
+		out = append(out, o.Durable)
 	}
 	return out
 }
